@@ -1953,6 +1953,27 @@ func ruleServerLoopShape(p *Prog, r *Out) {
 		r.check(validated, "mandatory pseudo-headers are required at END_HEADERS", p.pos(hf.Pos()), "if err := validateRequestPseudoHeaders(strm); err != nil { return err }", "the completed header block is no longer checked for its mandatory pseudo-headers (or the verdict is dropped)")
 		r.check(zeroInc, "WINDOW_UPDATE of 0 is refused", p.pos(hf.Pos()), "if win == 0 { reject }", "a stream WINDOW_UPDATE with an increment of 0 is no longer an error (RFC 7540 s6.9)")
 	}
+	// a trailer block reopens the header state until its END_HEADERS
+	{
+		reopen := false
+		for _, s := range hh.Body.List {
+			ifs, ok := s.(*ast.IfStmt)
+			if !ok || !p.isConjunctionOf(ifs.Cond, "strm.headersFinished", "fr.Type()==FrameHeaders") {
+				continue
+			}
+			rejects, clears := false, false
+			for _, b := range ifs.Body.List {
+				if in, ok := b.(*ast.IfStmt); ok && squash(p.text(in.Cond)) == "!fr.Flags().Has(FlagEndStream)" && isRejectingBody(p, in.Body) {
+					rejects = true
+				}
+				if as, ok := b.(*ast.AssignStmt); ok && squash(p.text(as.Lhs[0])) == "strm.headersFinished" && p.text(as.Rhs[0]) == "false" && rejects {
+					clears = true
+				}
+			}
+			reopen = rejects && clears
+		}
+		r.check(reopen, "a trailer block must end the stream and reopens the header state", p.pos(hh.Pos()), "if headersFinished && HEADERS { !END_STREAM -> reject; headersFinished = false }", "a second HEADERS frame on a stream no longer (a) has to carry END_STREAM and (b) marks the header block as open again until its END_HEADERS: trailers continued in CONTINUATION frames are refused, or the request is dispatched when the HEADERS frame arrives, before the rest of the trailer block, and the CONTINUATION that completes it is then answered with a connection error")
+	}
 	if vd := p.decl("validateRequestPseudoHeaders"); vd != nil {
 		okv := false
 		if len(vd.Body.List) > 0 {
